@@ -8,7 +8,7 @@ if [ -n "$(git -C /repo status --porcelain)" ]; then echo "/repo not clean"; exi
 for d in seeded/C*/; do
   id=$(basename $d)
   git -C /repo apply $PWD/$d/patch.diff || { echo -e "$id\tAPPLY-FAILED" >> $OUT; continue; }
-  res=$(for i in $(seq -w 1 20); do echo C$i; done | xargs -P 10 -I{} sh -c './check {} --tier quick > /tmp/sweep.{}.log 2>&1; echo "{}:$?"' | sort | tr '\n' ' ')
+  res=$(for i in $(seq -w 1 20); do echo C$i; done | xargs -P 16 -I{} sh -c './check {} --tier quick > /tmp/sweep.{}.log 2>&1; echo "{}:$?"' | sort | tr '\n' ' ')
   git -C /repo checkout -q -- .
   fired=$(echo $res | tr ' ' '\n' | grep ':1' | cut -d: -f1 | tr '\n' ',')
   broken=$(echo $res | tr ' ' '\n' | grep ':2' | cut -d: -f1 | tr '\n' ',')
